@@ -250,9 +250,13 @@ impl Version {
     }
 
     fn should_perform_mandatory_compaction(&self) -> bool {
+        // NOTE:  A level 0 that holds back ingest has to be compacted whatever the mandatory
+        // thresholds say; otherwise a stall threshold below them waits for a compaction that is
+        // never chosen.
         self.levels[0].ssts.len() >= self.options.l0_mandatory_compaction_threshold_files
             || self.levels[0].size() >= self.options.l0_mandatory_compaction_threshold_bytes as u64
             || self.levels.iter().all(|x| !x.ssts.is_empty())
+            || self.should_stall_ingest()
     }
 
     fn setsums(&self) -> Vec<Setsum> {
@@ -833,7 +837,11 @@ impl Version {
                 FIND_BEST_COMPACTION_MAX_BYTES_EXCEEDED.click();
                 return (candidate, best_score);
             }
-            if inputs.len() > self.options.max_compaction_files
+            // NOTE:  Like the byte limit above, the file limit does not apply to the level-0
+            // compaction while level 0 holds back ingest: it is the only compaction that can
+            // relieve it, and giving up here leaves every thread waiting on another.
+            let relieves_stall = lower_level == 0 && self.should_stall_ingest();
+            if (inputs.len() > self.options.max_compaction_files && !relieves_stall)
                 || inputs.len() > self.options.max_open_files
             {
                 FIND_BEST_COMPACTION_MAX_FILES_EXCEEDED.click();
